@@ -4,6 +4,7 @@
   the theorems below state the *documentation* declaratively about that model.
 -/
 import XgiModel.Lemmas.HGWF
+import XgiModel.Lemmas.HGShuffle
 import Mathlib.Tactic.Tauto
 import Mathlib.Tactic.ByContra
 
@@ -235,6 +236,14 @@ theorem swap_preserves (s : HG) (n1 n2 e1 e2 : PyId) :
               · rename_i he; subst he; exact hlen.2.2.1
               · rfl
 
+/-- `random_edge_shuffle`, for EVERY admissible outcome of `random.sample` (the `choice` oracle) and every
+    outcome kind: every edge size and every node degree is preserved, IDs, order and attributes are untouched -/
+theorem shuffle_preserves {s : HG} (hw : WF s) (e1 e2 : PyId) (choice : List PyId) (t : HG) (o : Outcome)
+    (hr : randomEdgeShuffle s e1 e2 choice = some (t, o)) :
+    (∀ e, size t e = size s e) ∧ (∀ n ∈ s.nodes, degree t n = degree s n) ∧
+    t.nodes = s.nodes ∧ t.edges = s.edges ∧ t.nattr = s.nattr ∧ t.eattr = s.eattr ∧ t.net = s.net ∧ t.uid = s.uid :=
+  shuffle_sizes_degrees hw e1 e2 choice t o hr
+
 /-! ### rejected edits raise the library's own error and change nothing -/
 
 theorem missing_id_lib (s : HG) :
@@ -272,5 +281,7 @@ example : (doubleEdgeSwap s1 (.int 1) (.int 4) (.int 0) (.int 1)).2 = .ok := by 
 example : (doubleEdgeSwap s1 (.int 3) (.int 4) (.int 0) (.int 1)).2 = .err .lib := by decide
 example : ((removeNode s1 (.int 3) true true).1).edges = [] := by decide
 example : ((removeNode s1 (.int 4) false true).1).mem (.int 1) = [.int 3] := by decide
+example : (randomEdgeShuffle s1 (.int 0) (.int 1) [.int 4, .int 1]).map (fun r => (r.2, r.1.mem (.int 0), r.1.mem (.int 1)))
+    = some (.ok, [.int 4, .int 1, .int 3], [.int 2, .int 3]) := by decide
 
 end Xgi.C05
